@@ -6,7 +6,9 @@ import (
 	"encoding/json"
 	"fmt"
 	"math"
+	"math/rand"
 	"strings"
+	"sync"
 
 	sdb "github.com/alicebob/sqlittle/db"
 
@@ -112,38 +114,71 @@ func cmpDetail(a, b hx.Value) string {
 func C11(run *hx.Run) {
 	run.Rule = "every ordered pair (a,b) of the value grid x {binary,nocase,rtrim} x {ASC,DESC}: db.Equals and db.Search on one-column keys vs SQLite's dense_rank() OVER (ORDER BY v COLLATE c); plus PRNG-chosen multi-column keys (1..3 key columns vs 3-column records, mixed collation/DESC flags) vs the lexicographic composition of ranks. distinct = distinct (a,b,collation,direction) tuples; non-trivial = every pair (each exercises a storage-class or collation decision)"
 	run.Assumptions = append(stdAssumptions, "NaN is excluded (SQLite stores NaN as NULL)", "only valid UTF-8 text")
-	o := mustOracle(run)
-	if o == nil {
-		return
-	}
-	defer o.Close()
-	rng := newRng(run, 11)
-	grid := hx.Grid()
+	rounds, extend, trials := 4, 300, 200000
 	if run.Thorough() {
-		grid = hx.ExtendGrid(grid, rng, 2200)
-	} else {
-		grid = hx.ExtendGrid(grid, rng, 60)
+		// independent rounds, each with its own PRNG-extended grid (extensions compound: second-generation
+		// neighbours of neighbours) and its own SQLite ranking
+		rounds, extend, trials = 96, 2500, 2000000
 	}
-	{
-		// de-duplicate so that enumerated tuples are distinct by construction
-		seen := map[string]bool{}
-		var d []hx.Value
-		for _, v := range grid {
-			if k := hx.ValueKey(v); !seen[k] {
-				seen[k] = true
-				d = append(d, v)
+	run.Exhaustive = true
+	var wg sync.WaitGroup
+	sem := make(chan struct{}, nWorkers())
+	var gridTotal, droppedTotal, tuplesTotal int64
+	var tmu sync.Mutex
+	for r := 0; r < rounds; r++ {
+		wg.Add(1)
+		go func(r int) {
+			defer wg.Done()
+			sem <- struct{}{}
+			defer func() { <-sem }()
+			o := mustOracle(run)
+			if o == nil {
+				return
 			}
-		}
-		grid = d
+			defer o.Close()
+			rng := newRng(run, 11+int64(r)*7919)
+			grid := hx.Grid()
+			grid = hx.ExtendGrid(grid, rng, extend)
+			if r%2 == 1 {
+				grid = hx.ExtendGrid(grid, rng, extend/2)
+			}
+			{
+				// de-duplicate so that enumerated tuples are distinct by construction
+				seen := map[string]bool{}
+				var d []hx.Value
+				for _, v := range grid {
+					if k := hx.ValueKey(v); !seen[k] {
+						seen[k] = true
+						d = append(d, v)
+					}
+				}
+				grid = d
+			}
+			n, dropped, tuples := c11Round(run, o, rng, grid, trials, r)
+			tmu.Lock()
+			gridTotal += int64(n)
+			droppedTotal += int64(dropped)
+			tuplesTotal += int64(tuples)
+			tmu.Unlock()
+		}(r)
 	}
+	wg.Wait()
+	run.SetExtra("rounds", rounds)
+	run.SetExtra("grid_size_total", gridTotal)
+	run.SetExtra("grid_values_not_stored_verbatim_by_sqlite", droppedTotal)
+	run.SetExtra("single_column_tuples", tuplesTotal)
+}
+
+// c11Round checks one value grid: all ordered pairs under every collation and direction, then PRNG multi-column keys.
+// Tuples of different rounds overlap only in the fixed base grid; the distinct count therefore counts the base
+// grid's tuples once (round 0) and per later round only tuples with at least one extended value.
+func c11Round(run *hx.Run, o *hx.Oracle, rng *rand.Rand, grid []hx.Value, trials int, round int) (int, int, int) {
 	rs, dropped, err := sqliteRanks(o, grid)
 	if err != nil {
 		run.Inconclusive("rank query failed: " + err.Error())
-		return
+		return 0, 0, 0
 	}
-	run.SetExtra("grid_size", len(rs.vals))
-	run.SetExtra("grid_values_not_stored_verbatim_by_sqlite", dropped)
-	run.Exhaustive = true
+	nBase := len(hx.Grid())
 
 	n := len(rs.vals)
 	report := func(op, coll string, desc bool, a, b hx.Value, got, want bool, ra, rb int) {
@@ -156,6 +191,8 @@ func C11(run *hx.Run) {
 			op, hx.ValueString(a), coll, dir, hx.ValueString(b), got, want, ra, rb),
 			hx.M{"op": op, "collation": coll, "desc": desc, "key": hx.EncodeValue(a), "rec": hx.EncodeValue(b)})
 	}
+	evals := 0
+	classPairs := map[string]int64{}
 	for _, coll := range collations {
 		ranks := rs.ranks[coll]
 		for i := 0; i < n; i++ {
@@ -172,7 +209,7 @@ func C11(run *hx.Run) {
 						run.Violation(fmt.Sprintf("C11/panic/%s/%s-%s", coll, hx.Class(a), hx.Class(b)), "panic comparing "+hx.ValueString(a)+" with "+hx.ValueString(b)+": "+msg, nil)
 						continue
 					}
-					run.Eval(2)
+					evals += 2
 					wantEq := ranks[i] == ranks[j]
 					wantSe := ranks[j] >= ranks[i]
 					if desc {
@@ -185,13 +222,21 @@ func C11(run *hx.Run) {
 						report("Search", coll, desc, a, b, se, wantSe, ranks[i], ranks[j])
 					}
 				}
-				run.See("class_pairs", hx.Class(a)+"-"+hx.Class(b))
+				classPairs[hx.Class(a)+"-"+hx.Class(b)]++
 			}
+			run.Eval(evals)
+			evals = 0
 		}
 	}
+	for k, c := range classPairs {
+		run.SeeN("class_pairs", k, c)
+	}
 	// distinct: by construction each (i,j,coll,dir) is a distinct tuple
-	run.DistinctN(n * n * len(collations) * 2)
-	run.SetExtra("single_column_tuples", n*n*len(collations)*2)
+	tuples := n * n * len(collations) * 2
+	if round > 0 && n >= nBase {
+		tuples -= nBase * nBase * len(collations) * 2 // the base grid's own pairs were counted by round 0
+	}
+	run.DistinctN(tuples)
 	// the default collation ("" in KeyCol) must behave as binary
 	for i := 0; i < n; i += 3 {
 		for j := 0; j < n; j += 2 {
@@ -205,10 +250,8 @@ func C11(run *hx.Run) {
 	}
 
 	// multi-column keys
-	trials := 40000
-	if run.Thorough() {
-		trials = 8000000
-	}
+	mevals := 0
+	klens := map[int]int64{}
 	for t := 0; t < trials; t++ {
 		klen := 1 + rng.Intn(3)
 		rlen := 3
@@ -261,7 +304,11 @@ func C11(run *hx.Run) {
 			run.Violation("C11/panic/multi", "panic in multi-column compare: "+msg, nil)
 			continue
 		}
-		run.Eval(2)
+		mevals += 2
+		if mevals >= 20000 {
+			run.Eval(mevals)
+			mevals = 0
+		}
 		if eq != wantEq || se != wantSe {
 			// classify by the first column that decides
 			var parts []string
@@ -296,15 +343,22 @@ func C11(run *hx.Run) {
 			}
 			run.Violation(key, fmt.Sprintf("multi-column: Equals=%v want %v, Search=%v want %v; columns: %s", eq, wantEq, se, wantSe, strings.Join(parts, " ; ")), nil)
 		}
-		if t < 4 {
+		if t < 4 && round < 3 {
 			var parts []string
 			for c := 0; c < klen; c++ {
 				parts = append(parts, fmt.Sprintf("%s/%s/desc=%v", hx.ValueString(key[c].V), colls[c], descs[c]))
 			}
 			run.Sample(hx.M{"key": parts, "record": hx.RowString(rec), "equals": eq, "search": se})
 		}
-		run.See("multi_key_len", fmt.Sprint(klen))
+		klens[klen]++
+	}
+	run.Eval(mevals)
+	for k, c := range klens {
+		run.SeeN("multi_key_len", fmt.Sprint(k), c)
 	}
 	run.Count("multi_column_trials", trials)
-	run.Sample(hx.M{"single": "Equals/Search(Key{" + hx.ValueString(rs.vals[5]) + "}, Record{" + hx.ValueString(rs.vals[len(rs.vals)-3]) + "})"})
+	if round == 0 {
+		run.Sample(hx.M{"single": "Equals/Search(Key{" + hx.ValueString(rs.vals[5]) + "}, Record{" + hx.ValueString(rs.vals[len(rs.vals)-3]) + "})"})
+	}
+	return n, dropped, tuples
 }
